@@ -385,7 +385,7 @@ CHECKS["C20"].update({
              "asked: diff_perm_deep) and is exercised with PYTHONHASHSEED varied in fresh interpreters; memos of live schema objects are exercised only "
              "(live-object and history classes). OldWf / NewWf / OldWfIn / NewWfIn (closed type map, well-formed argument types, unique argument and "
              "input field names) are consequences of Schema.validate(), which diff_schema calls first; they are hypotheses, not derived from C13 here; "
-             "the input-side rules are stated for the validator WITH fix V9 (necessary). The inner-order oracle has a deterministic block (every "
+             "the input-side rules are stated for the validator WITH fix V9 (necessary: fix_v9_necessary; values_rule_necessary); operations_stay_valid_of_valid (Props/C20_wf_of_valid.lean) takes C13's ValidSchema of both schemas instead, plus three facts about dumps (DumpShape, built-in types listed, well-formed argument types). The inner-order oracle has a deterministic block (every "
              "member-list kind x every removed element x rotations). Known findings G1, G4 (pinned by the suite), G6."),
     "technique": "Lean 4 proof (translated predicates, diff model: reflexivity, order independence at every level, every edit reported, operations stay valid rule by rule over the C06 specification) + exhaustive small-scope correspondence + edit oracle",
 })
